@@ -112,6 +112,7 @@ func duoCaseGen(minSocks int, allowLite bool) *rapid.Generator[duoCase] {
 }
 
 type duoSim struct {
+	delivered []*simDgram // STUN datagrams already delivered once (candidates for a late duplicate)
 	w     *simWorld
 	c     duoCase
 	ag    [2]*simAgent
@@ -285,7 +286,7 @@ type duoOp struct {
 	Arg  int
 }
 
-var duoOpNames = []string{"tickA", "tickB", "deliver", "drop", "dup", "trickleA", "trickleB", "deliverLast"}
+var duoOpNames = []string{"tickA", "tickB", "deliver", "drop", "dup", "trickleA", "trickleB", "deliverLast", "replay"}
 
 func (d *duoSim) applyOp(op duoOp, budget int) {
 	switch op.Kind {
@@ -311,7 +312,29 @@ func (d *duoSim) applyOp(op duoOp, budget int) {
 		}
 		dg := d.w.take(i)
 		res := d.w.deliver(dg)
+		if res == "deliver" && dg.msg != nil {
+			d.delivered = append(d.delivered, dg)
+			if len(d.delivered) > 24 {
+				d.delivered = d.delivered[1:]
+			}
+		}
 		d.ops = append(d.ops, fmt.Sprintf("deliver(%s)=%s", dg, res))
+	case 8:
+		// a late duplicate of a datagram that was already delivered once
+		if len(d.delivered) == 0 {
+			return
+		}
+		dg := d.delivered[op.Arg%len(d.delivered)]
+		cp := *dg
+		cp.dup = true
+		d.w.mu.Lock()
+		d.w.nextID++
+		cp.id = d.w.nextID
+		d.w.mu.Unlock()
+		res := d.w.deliver(&cp)
+		d.lbl["stun-duplicated"] = true
+		d.lbl["late-duplicate"] = true
+		d.ops = append(d.ops, fmt.Sprintf("replay(%s)=%s", dg, res))
 	case 3:
 		dg := d.w.take(op.Arg)
 		if dg == nil {
@@ -348,7 +371,7 @@ func (d *duoSim) applyOp(op duoOp, budget int) {
 func duoOpGen() *rapid.Generator[duoOp] {
 	return rapid.Custom(func(t *rapid.T) duoOp {
 		return duoOp{
-			Kind: rapid.SampledFrom([]int{0, 1, 2, 2, 2, 2, 7, 3, 4, 5, 6}).Draw(t, "op"),
+			Kind: rapid.SampledFrom([]int{0, 1, 2, 2, 2, 2, 7, 3, 4, 5, 6, 8, 8}).Draw(t, "op"),
 			Arg:  rapid.IntRange(0, 15).Draw(t, "arg"),
 		}
 	})
@@ -361,7 +384,7 @@ func (d *duoSim) sessionRestart(first int, between []duoOp) error {
 		return err
 	}
 	for _, op := range between {
-		if op.Kind == 2 || op.Kind == 3 || op.Kind == 4 || op.Kind == 7 {
+		if op.Kind == 2 || op.Kind == 3 || op.Kind == 4 || op.Kind == 7 || op.Kind == 8 {
 			d.applyOp(op, 0)
 		}
 	}
